@@ -34,7 +34,7 @@ func init() {
 		ID:   "C02",
 		Dirs: []string{"root"},
 		Jobs: func(tier string) []Job {
-			ctxs := []string{"leaf", "not", "inv", "or", "or_rev", "and", "not_or", "or_inv"}
+			ctxs := []string{"leaf", "not", "inv", "or", "or_rev", "and", "not_or", "or_inv", "or_notl"}
 			n, pP, sn, sP, strlen := 2, 3, 2, 2, 1
 			if tier == "thorough" {
 				ctxs = []string{"leaf", "not", "inv", "notnot", "not_and1", "and", "and_rev", "or", "or_rev", "or_notl", "or_notk", "not_or", "and_or", "or_and", "or3", "or_inv", "or_inv_first", "and_inv"}
@@ -79,7 +79,7 @@ func init() {
 			if tier == "thorough" {
 				return "rows n=3 of P=4 physical (string/enum: n=2,P=3, cells <=2 bytes), value lists of 2, 18 clause contexts per leaf kernel, plus full-length permuted frames (n=P=2) in 2 contexts; all cell values, index contents and constants symbolic"
 			}
-			return "rows n=2 of P=3 physical (string/enum: n=2,P=2, cells <=1 byte), value lists of 2, 8 clause contexts per leaf kernel, plus full-length permuted frames (n=P=2) in 2 contexts; all cell values, index contents and constants symbolic"
+			return "rows n=2 of P=3 physical (string/enum: n=2,P=2, cells <=1 byte), value lists of 2, 9 clause contexts per leaf kernel, plus full-length permuted frames (n=P=2) in 2 contexts; all cell values, index contents and constants symbolic"
 		},
 		Assume: []string{
 			"frames are built as New(data).withIndex(ix) with ix an arbitrary injective sequence of positions (DESIGN 3.2)",
